@@ -1658,7 +1658,7 @@ impl UnifiedCommandExecutor {
                 handle_xpending(&self.storage, db, &frames)
             }
             
-            ConsumerGroupCommand::XClaim { key, group, consumer, min_idle_time, ids, force: _force, justid: _justid } => {
+            ConsumerGroupCommand::XClaim { key, group, consumer, min_idle_time, ids, force, justid } => {
                 use crate::storage::commands::consumer_groups::handle_xclaim;
                 let mut frames = vec![
                     RespFrame::from_string("XCLAIM"),
@@ -1670,6 +1670,12 @@ impl UnifiedCommandExecutor {
                 
                 for id in ids {
                     frames.push(RespFrame::from_string(id));
+                }
+                if force {
+                    frames.push(RespFrame::from_string("FORCE"));
+                }
+                if justid {
+                    frames.push(RespFrame::from_string("JUSTID"));
                 }
                 
                 handle_xclaim(&self.storage, db, &frames)
